@@ -74,7 +74,7 @@ func c09Walk(v reflect.Value, tname, prefix string, out *[]c09leaf) {
 }
 
 // argument pools for reflective mutation
-var c09Strs = []string{"a", "x=1&y=2", "k", "text/html", "/p/q?x=1#f", "5", "close", "gzip", "a, b", "Sat, 01 Jan 2028 00:00:00 GMT", "example.com:80"}
+var c09Strs = []string{"a", "x=1&y=2", "k", "id=7", "debug&z=", "text/html", "/p/q?x=1#f", "5", "close", "gzip", "a, b", "Sat, 01 Jan 2028 00:00:00 GMT", "example.com:80"}
 
 func c09Arg(t reflect.Type, n int) (reflect.Value, bool) {
 	switch t.Kind() {
@@ -277,6 +277,21 @@ func init() {
 			// public observation: every plain getter equals that of a fresh object
 			if got, want := c09Dump(obj), c09Dump(ty.fresh()); got != want {
 				fs = append(fs, Finding{Kind: "oracle", Unit: "c09.fields", Class: "getter-differs-after-reset:" + ty.name, Impl: got, Expect: want})
+			}
+			// and the recycled object behaves like a fresh one under further use: the same second program
+			// (the first one's mutators with other arguments) on both must give the same observations
+			// (a stale flag in a reused slice slot only shows once the slot is filled again)
+			fresh2 := ty.fresh()
+			for i := 2; i < len(in); i++ {
+				parts := strings.SplitN(in.S(i), ":", 2)
+				var seed int
+				fmt.Sscanf(parts[1], "%d", &seed)
+				c09Apply(obj, parts[0], seed+7)
+				c09Apply(fresh2, parts[0], seed+7)
+			}
+			if got, want := c09Dump(obj), c09Dump(fresh2); got != want {
+				fs = append(fs, Finding{Kind: "oracle", Unit: "c09.fields", Class: "recycled-object-differs-from-a-fresh-one-under-further-use:" + ty.name,
+					Impl: got, Expect: want, Note: c09FirstDiff(got, want)})
 			}
 			return fs
 		},
